@@ -1,7 +1,7 @@
 (* C03 -- A file's pointer (hash, size) depends only on its bytes and the salt.  Statements only. *)
 From Coq Require Import NArith Bool List.
 Import ListNotations.
-From XetModel Require Import Base.Codec Gen.ShardLayout Gen.DedupFacts Model.Merkle Model.Shard Model.Dedup Proofs.PipelineProofs.
+From XetModel Require Import Base.Codec Gen.ShardLayout Gen.DedupFacts Model.Merkle Model.Shard Model.Dedup Proofs.PipelineProofs Proofs.ResolveProofs Proofs.BytesProofs Proofs.PointerProofs.
 Open Scope N_scope.
 
 From XetModel Require Import Gen.GearTable Gen.ChunkConsts Model.Chunker Proofs.ChunkerProofs Proofs.ChunkerLaws.
@@ -24,5 +24,28 @@ Proof. exact L_partition_invariant. Qed.
 (* the size field is the total_bytes metric (C14); salt separation is a property of keyed BLAKE3 and is checked by the
    oracle on generated contents (two salts), not proved *)
 
+(* the pointer's hash for a whole file: it is file_node_hash of the chunk sequence under the salt, and therefore the same for
+   any two runs over the same chunk sequence -- whatever the block split, the dedup table, what the session registered before,
+   the size limits, the fragmentation decisions, the SHA-256 supplied *)
+Theorem C03_pointer_hash_is_file_node_hash : forall bbd cf ext R blocks salt sha,
+  fst (fst (fst (fd_finalize (feed_blocks bbd cf ext (fd_with_registered R) blocks) salt sha))) =
+  match file_node_hash (concat blocks) salt with Some h => h | None => zero_hash end.
+Proof. exact pointer_hash_is_file_node_hash. Qed.
+Theorem C03_pointer_hash_independent_of_split_store_and_limits : forall bbd1 bbd2 cf1 cf2 ext1 ext2 R1 R2 blocks1 blocks2 salt sha1 sha2,
+  concat blocks1 = concat blocks2 ->
+  fst (fst (fst (fd_finalize (feed_blocks bbd1 cf1 ext1 (fd_with_registered R1) blocks1) salt sha1))) =
+  fst (fst (fst (fd_finalize (feed_blocks bbd2 cf2 ext2 (fd_with_registered R2) blocks2) salt sha2))).
+Proof. exact pointer_hash_depends_on_chunks_and_salt. Qed.
+(* the pointer's size is the total-bytes counter, which is the number of bytes fed (C14_total_bytes_exact, restated) *)
+Theorem C03_pointer_size_is_bytes_fed : forall F U, StoreOk F U -> forall cf ext R blocks,
+  TableOk F ext -> TableSmall ext -> (forall x, In x F -> sum_lens (chunks_of x) < 4294967296) ->
+  (forall b c, In b blocks -> In c b -> In c U) ->
+  (forall x, In x (f_registered (feed_blocks dedup_booked_before_decision cf ext (fd_with_registered R) blocks)) -> In x F) ->
+  m_total_bytes (f_metrics (feed_blocks dedup_booked_before_decision cf ext (fd_with_registered R) blocks)) = sum_lens (concat blocks).
+Proof. exact file_total_bytes. Qed.
+
 Print Assumptions C03_fed_chunks_recorded.
 Print Assumptions C03_file_hash_function.
+Print Assumptions C03_pointer_hash_is_file_node_hash.
+Print Assumptions C03_pointer_hash_independent_of_split_store_and_limits.
+Print Assumptions C03_pointer_size_is_bytes_fed.
